@@ -439,3 +439,108 @@ Proof. exact source_apply_ampdel. Qed.
 Theorem C14_source_wrapper : forall (enc : list seg -> Z) (name : string) (f : filt) (t : list seg),
   Gen.FnSegWrap.fn_wrapped (enc t) name (enc (apply_filter f t)) = enc (apply_filter f t).
 Proof. exact source_wrapped_filter. Qed.
+
+(* ==== LOOP TIES, wave e4 (tools/fnspecs/c14_e4.py) ====
+   do_call's two filter loops (cnvlib/call.py), one iteration each translated from the source text on every run
+   (Gen/FnCallPreFilter.v, Gen/FnCallPostFilter.v).  The table the loops carry is an opaque value, instantiated with the
+   trace of filter names applied so far and read back by FnCallPreFilter.table_of (the named filters of the model applied
+   in order). *)
+From CNV Require Import Proofs.FnCallPreFilter Proofs.FnCallPostFilter.
+From CNV Require Gen.FnCallPreFilter Gen.FnCallPostFilter.
+
+(* `for filt in ("ci", "sem")`, one iteration: a filter that was asked for is applied now and taken off the list *)
+Theorem C14_source_pre_step : forall (p : filt) (tr : list string) (fs : list filt),
+  py_pre_iter (tr, map name_of fs) (name_of p)
+  = if memf p fs then (tr ++ [name_of p], map name_of (remove_first p fs)) else (tr, map name_of fs).
+Proof. exact source_pre_step. Qed.
+
+(* ... and the model's pre_steps IS that generated step folded over the tuple: same table, same remaining list *)
+Theorem C14_source_pre_steps : forall (t : list seg) (fs : list filt),
+  let L := py_pre_loop (map name_of fs) in
+  let r := pre_steps pre_filters t fs in
+  fst r = table_of t (fst L) /\ map name_of (snd r) = snd L.
+Proof. exact source_pre_steps. Qed.
+
+(* `for filt in filters`, one iteration: the named filter applied to the carried table *)
+Theorem C14_source_post_step : forall (f : filt) (t : list seg) (tr : list string),
+  table_of t (py_post_iter tr (name_of f)) = apply_filter f (table_of t tr).
+Proof. exact source_post_step. Qed.
+
+(* ... and apply_seq IS that generated step folded over the remaining filters, in the order given *)
+Theorem C14_source_apply_seq : forall (fs : list filt) (t : list seg),
+  apply_seq fs t = table_of t (py_post_loop (map name_of fs) []).
+Proof. exact source_apply_seq. Qed.
+
+(* the filter handling of do_call (the function C14_order is about) = the two generated loops around the calling step *)
+Theorem C14_source_call_with_filters : forall (call : list seg -> list seg) (fs : list filt) (t : list seg),
+  call_with_filters call fs t =
+  let L := py_pre_loop (map name_of fs) in
+  table_of (call (table_of t (fst L))) (py_post_loop (snd L) []).
+Proof. exact source_call_with_filters. Qed.
+
+(* the reading is not vacuous: a run of the generated loops *)
+Example ex_source_filter_loops :
+  py_pre_loop (map name_of [Fampdel; Fsem; Fcn]) = (["sem"%string], ["ampdel"%string; "cn"%string])
+  /\ py_post_loop ["ampdel"%string; "cn"%string] [] = ["ampdel"%string; "cn"%string].
+Proof. vm_compute. split; reflexivity. Qed.
+
+(* ---- squash_by_groups' key columns, squash_region's coordinates, the four filters as whole functions
+        (Gen/FnSegAlleleKeys.v, FnSegSpan.v, FnSegHandOver.v) ---- *)
+From CNV Require Import Proofs.FnSegAlleleKeys Proofs.FnSegSpan Proofs.FnSegHandOver.
+From CNV Require Gen.FnSegAlleleKeys Gen.FnSegSpan Gen.FnSegHandOver.
+
+(* `if "cn1" in cnarr:` -- with the allele columns the row's key is (_group, _g1, _g2) from cn1, cn2 in this order;
+   without them only _group *)
+Theorem C14_source_allele_keys : forall (g o g1 g2 : list Z), mk_keys g o g1 g2 = src_keys3 true g o g1 g2.
+Proof. exact source_allele_keys. Qed.
+
+Theorem C14_source_allele_keys_absent : forall (g o : list Z) (c1 c2 : list (option Q)),
+  Forall (fun c => c = None) c1 -> Forall (fun c => c = None) c2 ->
+  mk_keys g o (enumerate_changes c1) (enumerate_changes c2)
+  = src_keys3 false g o (enumerate_changes c1) (enumerate_changes c2).
+Proof. exact source_allele_keys_absent. Qed.
+
+(* squash_by_groups groups by the generated key columns *)
+Theorem C14_source_group_keys3 : forall (levels : list (option Q)) (t : list seg),
+  squash_by_groups levels t =
+  let names := map chrom t in
+  let u := uniq_str names in
+  let keys := src_keys3 true (enumerate_changes levels) (map (fun c => index_of c u) names)
+                        (enumerate_changes (map cn1 t)) (enumerate_changes (map cn2 t)) in
+  map (fun kg => squash_region (snd kg)) (group_by_key (combine keys t)).
+Proof. exact source_group_keys3. Qed.
+
+Theorem C14_source_group_keys3_absent : forall (levels : list (option Q)) (t : list seg),
+  Forall (fun s => cn1 s = None /\ cn2 s = None) t ->
+  squash_by_groups levels t =
+  let names := map chrom t in
+  let u := uniq_str names in
+  let keys := src_keys3 false (enumerate_changes levels) (map (fun c => index_of c u) names)
+                        (enumerate_changes (map cn1 t)) (enumerate_changes (map cn2 t)) in
+  map (fun kg => squash_region (snd kg)) (group_by_key (combine keys t)).
+Proof. exact source_group_keys3_absent. Qed.
+
+(* squash_region: chromosome and start of the FIRST row, end of the LAST row *)
+Theorem C14_source_span : forall (s0 : seg) (rest : list seg) (w : Q),
+  let r := s0 :: rest in
+  let l := last r s0 in
+  let s := squash_region r in
+  (chrom s, lo s, hi s) = Gen.FnSegSpan.fn_squash_span w (chrom s0) (chrom l) (lo s0) (lo l) (hi s0) (hi l).
+Proof. exact source_span. Qed.
+
+(* cn / ci / sem / ampdel as whole functions: whatever squash_by_groups and pd.Series do, the row's level of the model
+   is what they are handed; the model's squashing step is squash_by_groups on the generated levels *)
+Theorem C14_source_level : forall (f : filt) (s : seg), level f s = src_level f s.
+Proof. exact source_level. Qed.
+
+Theorem C14_source_hand_over : forall (squash : Z -> Q -> Q) (series : Q -> Z -> Q) (tbl idx : Z) (s : seg),
+  Gen.FnSegHandOver.fn_cn_whole squash tbl (cn s) = squash tbl (level Fcn s) /\
+  Gen.FnSegHandOver.fn_ci_whole squash series tbl idx 0 (ci_lo s) (ci_hi s) = squash tbl (series (level Fci s) idx) /\
+  Gen.FnSegHandOver.fn_sem_whole squash series tbl idx 0 SegfilterDefaults.sem_zscore (sem s) (log2 s)
+    = squash tbl (series (level Fsem s) idx) /\
+  Gen.FnSegHandOver.fn_ampdel_whole squash series tbl idx 0 (cn s) = squash tbl (series (level Fampdel s) idx).
+Proof. exact source_hand_over. Qed.
+
+Theorem C14_source_squashed : forall (f : filt) (t : list seg),
+  squashed f t = squash_by_groups (map (fun s => Some (src_level f s)) t) t.
+Proof. exact source_squashed. Qed.
